@@ -52,6 +52,7 @@ type sel struct {
 	far      bool   // a segment far from availabilityStartTime (numbers close to 2^30)
 	nsegs    int
 	pos      int // >= 0: position in the loop of the first chosen segment
+	past     bool // request only before availability (425) and after the segment end (nothing sleeps)
 }
 
 // plan builds the scenarios.  The offsets stay inside the property's quantifier: from one sample short of
@@ -84,7 +85,7 @@ func plan(env *tl.Env, rng *rand.Rand, thorough bool) []*scen {
 		if ato <= 0 || ato >= mn {
 			return
 		}
-		sels = append(sels, sel{asset, audio, mode, snr, ast, ato, cd, drm, far, nsegs, -1})
+		sels = append(sels, sel{asset, audio, mode, snr, ast, ato, cd, drm, far, nsegs, -1, false})
 	}
 	const bigAST = 1_699_999_000
 	if !thorough {
@@ -104,6 +105,15 @@ func plan(env *tl.Env, rng *rand.Rand, thorough bool) []*scen {
 		// unequal segment durations (1.333 / 2.667 / 2 / 2 s): the shortest segment of the loop
 		add("g_irr90k", false, "number", -1, 0, half, "0.5", "", false, 1)
 		sels[len(sels)-1].pos = 0
+		// DRM (chunks are encrypted after chunking; decrypted with mp4ff before comparison): requested after the
+		// segment end only, so these cost no real time
+		add("testpic_2s", false, "number", -1, 0, half, "0.5", "cenc", false, 1)
+		add("testpic_2s", false, "time", 1, bigAST, q34, "0.25", "cbcs", false, 1)
+		add("testpic_2s", true, "number", -1, 0, quart, "0.5", "cbcs", false, 1)
+		add("testpic_2s", true, "tlnr", 5, bigAST, half, "1", "cenc", false, 1)
+		for i := 1; i <= 4; i++ {
+			sels[len(sels)-i].past = true
+		}
 	} else {
 		fs := []atoF{short1, short2, q34, half, third, quart, eighth}
 		cds := []string{"0.04", "0.1", "0.25", "0.5", "1", "1.75", "3"}
@@ -193,6 +203,12 @@ func plan(env *tl.Env, rng *rand.Rand, thorough bool) []*scen {
 				}
 			}
 			addI("early", av-1)
+			if x.past {
+				addI("after", endMS+1)
+				addI("after", endMS+1+r.Int63n(50_000))
+				s.insts[n] = list
+				continue
+			}
 			addI("early", av-2-r.Int63n(span+1))
 			addI("avail", av)
 			addI("between", av+1+r.Int63n(span))
